@@ -223,7 +223,9 @@ def gen_history(seed, tier, classes=None, weights=None, n_ops=(6, 16),
       s.data = dk
     via = "indices" if (s.pre and r.random() < 0.6) else "formed"
     op = dict(op="fit", h=s.hid, data=dk, via=via)
-    if buffer_p and r.random() < buffer_p:
+    if not hasattr(s, "buffered"):
+      s.buffered = bool(buffer_p) and r.random() < buffer_p     # a caller habit: sticky per estimator
+    if s.buffered and r.random() < 0.85:
       # the caller keeps one set of array objects per (dataset, kind of
       # arguments) and refills them: same objects, other content (rows in
       # another order; for formed data also other units, slightly moved)
